@@ -49,6 +49,16 @@ pub struct ConnMon {
     pub inst_recvd: u64,
     pub inst_sent: u64,
     pub inst_count: BTreeMap<SocketAddr, u32>,
+    /// C05 credit ledger: what the peer has advertised to this sender (superset)
+    pub led_on: bool,
+    pub led_max_data: u64,
+    pub led_stream_default: u64,
+    pub led_stream: BTreeMap<u64, u64>,
+    pub led_max_streams: [u64; 2],
+    /// highest offset sent per stream
+    pub sent_hi: BTreeMap<u64, u64>,
+    pub sent_total: u64,
+    pub side_is_client: bool,
 }
 
 pub struct Mon {
@@ -66,6 +76,69 @@ pub struct Mon {
     pub frame_cov: BTreeSet<(PType, &'static str)>,
     pub enable_c07: bool,
     pub enable_c13: bool,
+    pub enable_c12: bool,
+    pub enable_c05: bool,
+    /// honest-peer world: any transport error between the peers is itself a finding
+    pub honest: bool,
+    pub rebinds: u32,
+    /// DATAGRAM seqs (None for anonymous short ones) in arrival order per receiving connection
+    pub dgram_arrivals: BTreeMap<(usize, usize), Vec<Option<u32>>>,
+    pub last_reset_ns: BTreeMap<usize, u64>,
+}
+
+/// Packets of a delivered datagram that are certainly genuine: those lying entirely inside the
+/// prefix the network left untouched.
+fn intact_packets(d: &Dgram, cid_len: usize) -> Vec<DecodedPacket> {
+    let mut out = vec![];
+    let mut off = 0;
+    while off < d.intact.min(d.data.len()) {
+        let Ok(pkt) = wire::parse_packet(&d.data[off..], cid_len) else { break };
+        let mut end = off + pkt.len;
+        if pkt.ty == PType::Short {
+            // a short-header packet extends to the end of the genuine datagram
+            if d.intact < d.data.len() || d.forged && d.intact != d.data.len() {
+                if d.intact < d.data.len() {
+                    // appended garbage: the genuine packet ended at `intact`
+                    end = d.intact;
+                } else {
+                    break;
+                }
+            }
+        }
+        if end > d.intact || end > d.data.len() {
+            break;
+        }
+        let bytes = &d.data[off..end];
+        let h = pkt.header_len();
+        let frames = match pkt.ty {
+            PType::Retry | PType::VersionNegotiation => vec![],
+            _ => {
+                if bytes.len() < h + 16 {
+                    break;
+                }
+                match wire::decode_frames(&bytes[h..bytes.len() - 16]) {
+                    Ok(f) => f,
+                    Err(_) => break,
+                }
+            }
+        };
+        out.push(DecodedPacket { pkt, frames, size: bytes.len() });
+        off = end;
+    }
+    out
+}
+
+/// Packet types lying entirely inside the untouched prefix (works on any crypto lane).
+fn intact_types(d: &Dgram) -> Vec<PType> {
+    let mut out = vec![];
+    let mut off = 0;
+    for (ty, len) in wire::split_types(&d.data) {
+        if off + len <= d.intact || (ty == PType::Short && off < d.intact && !d.forged) {
+            out.push(ty);
+        }
+        off += len;
+    }
+    out
 }
 
 impl Mon {
@@ -82,6 +155,12 @@ impl Mon {
             frame_cov: BTreeSet::new(),
             enable_c07: true,
             enable_c13: true,
+            enable_c12: true,
+            enable_c05: true,
+            honest: true,
+            rebinds: 0,
+            dgram_arrivals: BTreeMap::new(),
+            last_reset_ns: BTreeMap::new(),
         }
     }
 
@@ -95,8 +174,25 @@ impl Mon {
         std::mem::take(&mut self.viol)
     }
 
+    /// `peer_limits` = (max_data, stream window, max bidi streams, max uni streams) the peer's
+    /// configuration advertises in its transport parameters
+    pub fn set_peer_limits(&mut self, ei: usize, ch: usize, l: (u64, u64, u64, u64)) {
+        if let Some(cm) = self.conns.get_mut(&(ei, ch)) {
+            cm.led_on = true;
+            cm.led_max_data = l.0;
+            cm.led_stream_default = l.1;
+            cm.led_max_streams = [l.2, l.3];
+        }
+    }
+
     pub fn on_conn_created(&mut self, ei: usize, ch: usize, pair: u64, side: Side, remote: SocketAddr) {
-        let mut cm = ConnMon { pair, is_server: side == Side::Server, initial_remote: Some(remote), ..ConnMon::default() };
+        let mut cm = ConnMon {
+            pair,
+            is_server: side == Side::Server,
+            side_is_client: side == Side::Client,
+            initial_remote: Some(remote),
+            ..ConnMon::default()
+        };
         if side == Side::Server {
             let credit = self.unattributed.remove(&(ei, remote)).unwrap_or(0);
             cm.paths.entry(remote).or_default().recvd += credit;
@@ -150,6 +246,31 @@ impl Mon {
         // C07: address validation events observable from the wire
         let lane = self.lane;
         let Some(cm) = self.conns.get_mut(&(ei, ch)) else { return };
+        if lane == Lane::Null && cm.led_on {
+            {
+                let pk = intact_packets(d, conn.cid_len);
+                for p in &pk {
+                    for f in &p.frames {
+                        match f {
+                            Frame::Datagram { data, .. } if d.copy == 0 => {
+                                let seq = if data.len() >= 8 { Some(u32::from_le_bytes(data[..4].try_into().unwrap())) } else { None };
+                                self.dgram_arrivals.entry((ei, ch)).or_default().push(seq);
+                            }
+                            Frame::MaxData(v) => cm.led_max_data = cm.led_max_data.max(*v),
+                            Frame::MaxStreamData { id, max } => {
+                                let e = cm.led_stream.entry(*id).or_insert(cm.led_stream_default);
+                                *e = (*e).max(*max);
+                            }
+                            Frame::MaxStreams { bidi, max } => {
+                                let i = if *bidi { 0 } else { 1 };
+                                cm.led_max_streams[i] = cm.led_max_streams[i].max(*max);
+                            }
+                            _ => {}
+                        }
+                    }
+                }
+            }
+        }
         if cm.is_server {
             let credit = d.data.len() as u64;
             let src = d.src;
@@ -157,9 +278,9 @@ impl Mon {
                 self.cnt.inc("c07.path_instances");
             }
         }
-        if cm.is_server && !d.forged {
-            let types = wire::split_types(&d.data);
-            if types.iter().any(|(t, _)| *t == PType::Handshake) {
+        if cm.is_server {
+            let types = intact_types(d);
+            if types.iter().any(|t| *t == PType::Handshake) {
                 let p = cm.paths.entry(d.src).or_default();
                 if !p.validated {
                     p.validated = true;
@@ -168,7 +289,8 @@ impl Mon {
             }
             if lane == Lane::Null {
                 let cid_len = conn.cid_len;
-                if let Ok(pk) = wire::decode_plain_datagram(&d.data, cid_len) {
+                {
+                    let pk = intact_packets(d, cid_len);
                     if pk.iter().any(|p| p.frames.iter().any(|f| matches!(f, Frame::PathResponse(_)))) {
                         let p = cm.paths.entry(d.src).or_default();
                         if !p.validated {
@@ -207,8 +329,15 @@ impl Mon {
         true
     }
 
-    pub fn on_response(&mut self, _ei: usize, d: &Dgram, t: &Transmit, bytes: &[u8], _now: u64, _led: &mut Ledger) {
+    pub fn on_response(&mut self, ei: usize, d: &Dgram, t: &Transmit, bytes: &[u8], now: u64, min_interval_ns: u64, _led: &mut Ledger) {
         self.cnt.inc("ep.response");
+        if !bytes.is_empty() && bytes[0] & 0x80 == 0 {
+            if let Some(last) = self.last_reset_ns.insert(ei, now) {
+                if now - last < min_interval_ns {
+                    self.violate("C07", format!("endpoint {ei}: two stateless resets {} ns apart, min_reset_interval is {min_interval_ns} ns", now - last));
+                }
+            }
+        }
         // Stateless reset bound (C07): responses that look like short-header packets must be
         // strictly smaller than the datagram that provoked them.
         if !bytes.is_empty() && bytes[0] & 0x80 == 0 {
@@ -228,6 +357,25 @@ impl Mon {
     }
 
     pub fn on_event(&mut self, ei: usize, ch: usize, ev: &Event, _conn: &Conn, now: u64, _led: &mut Ledger) {
+        if let Event::ConnectionLost { reason } = ev {
+            self.cnt.inc("conn.lost");
+            if self.honest {
+                use proto::ConnectionError as CE;
+                let code = match reason {
+                    CE::TransportError(e) => Some(u64::from(e.code)),
+                    CE::ConnectionClosed(c) => Some(u64::from(c.error_code)),
+                    _ => None,
+                };
+                match code {
+                    Some(0) | None => {}
+                    // a client that moved during the handshake legitimately fails Retry-token address binding
+                    Some(0xb) if self.rebinds > 0 => self.cnt.inc("honest.invalid_token_after_rebind"),
+                    Some(c @ (0x3 | 0x4)) => self.violate("C05", format!("conn {ei}/{ch}: honest peers but connection lost with flow-control/stream-limit error {c:#x}: {reason}")),
+                    Some(c @ (0x5 | 0x6)) => self.violate("C11", format!("conn {ei}/{ch}: honest peers but connection lost with stream-state/final-size error {c:#x}: {reason}")),
+                    Some(c) => self.violate("C02", format!("conn {ei}/{ch}: honest peers but connection lost with transport error {c:#x}: {reason}")),
+                }
+            }
+        }
         if let Event::ConnectionLost { .. } = ev {
             let mut msg = None;
             if let Some(cm) = self.conns.get_mut(&(ei, ch)) {
@@ -271,8 +419,24 @@ impl Mon {
         if self.enable_c13 {
             self.check_mtu_history(ei, ch, conn, mtu);
         }
+        let probe = c.verif_probe();
+        if self.enable_c12 {
+            self.cnt.inc("c12.conservation_checks");
+            if probe.sent_packets == [0, 0, 0] && (probe.in_flight_bytes != 0 || probe.in_flight_ack_eliciting != 0) {
+                self.violate(
+                    "C12",
+                    format!(
+                        "conn {ei}/{ch}: no packet is tracked as outstanding but in flight = {} bytes / {} ack-eliciting",
+                        probe.in_flight_bytes, probe.in_flight_ack_eliciting
+                    ),
+                );
+            }
+            if probe.in_flight_ack_eliciting > 0 && probe.in_flight_bytes == 0 {
+                self.violate("C12", format!("conn {ei}/{ch}: {} ack-eliciting packets in flight but 0 bytes", probe.in_flight_ack_eliciting));
+            }
+        }
         Pre {
-            probe: c.verif_probe(),
+            probe,
             mtu,
             stats: c.stats(),
             closed: c.is_closed(),
@@ -370,6 +534,27 @@ impl Mon {
             }
         }
 
+        // ---------------- C16 on the wire ----------------
+        if self.lane == Lane::Null {
+            if let Some(limit) = post.peer_max_datagram_frame_size {
+                for d in decoded.iter().flatten() {
+                    for p in d {
+                        for f in &p.frames {
+                            if let Frame::Datagram { data, explicit_len } = f {
+                                self.cnt.inc("c16.wire_frames_checked");
+                                // the property bounds the payload by the advertised limit; the frame
+                                // header of an empty datagram may exceed a limit of 0 or 1
+                                let _ = explicit_len;
+                                if data.len() as u64 > limit {
+                                    self.violate("C16", format!("conn {ei}/{ch}: DATAGRAM payload of {} bytes exceeds the peer's max_datagram_frame_size {limit}", data.len()));
+                                }
+                            }
+                        }
+                    }
+                }
+            }
+        }
+
         // ---------------- C13 ----------------
         if self.enable_c13 {
             self.cnt.inc("c13.transmits_checked");
@@ -438,6 +623,127 @@ impl Mon {
                         "C13",
                         format!("conn {ei}/{ch}: {fell} loss probes consumed but only {small} datagrams <= 1200 bytes in the transmit (sizes {:?})", segs.iter().map(|s| s.len()).collect::<Vec<_>>()),
                     );
+                }
+            }
+        }
+
+        // ---------------- C12 gate ----------------
+        if self.enable_c12 && self.lane == Lane::Null && decoded.len() == segs.len() && decoded.iter().all(|d| d.is_some()) {
+            let window = pre.probe.window;
+            let mut fell = 0u32;
+            for i in 0..3 {
+                fell += pre.probe.loss_probes[i].saturating_sub(post.loss_probes[i]);
+            }
+            let initial_discarded = pre.probe.has_keys[0] && !post.has_keys[0];
+            let mut f = pre.probe.in_flight_bytes;
+            let mut exempt_probes = fell;
+            let mut bad = vec![];
+            for (i, (s, d)) in segs.iter().zip(decoded.iter()).enumerate() {
+                let pk = d.as_ref().unwrap();
+                let eliciting = pk.iter().any(|p| p.ack_eliciting());
+                let path_frames = pk.iter().any(|p| p.frames.iter().any(|f| matches!(f, Frame::PathChallenge(_) | Frame::PathResponse(_))));
+                let close = pk.iter().any(|p| p.has_close());
+                let counted: u64 = pk.iter().filter(|p| p.ack_eliciting() || p.has_padding()).map(|p| p.size as u64).sum();
+                // a space with a pending loss probe is exempt even when the probe is coalesced
+                // into a datagram started by another space (quinn then does not consume the
+                // probe credit, so it does not show up as a loss_probes decrement)
+                let probe_pending = pk.iter().any(|p| p.ack_eliciting() && p.pkt.ty.space().map_or(false, |sp| pre.probe.loss_probes[sp] > 0));
+                if probe_pending {
+                    self.cnt.inc("c12.gate_exempt_pending_probe");
+                }
+                if eliciting && !is_probe && !path_frames && !close && !probe_pending && !(initial_discarded && i > 0) {
+                    self.cnt.inc("c12.gate_checked");
+                    // bytes in flight once this datagram is out: only packets that count
+                    let _ = s;
+                    if f + counted >= window {
+                        if exempt_probes > 0 {
+                            exempt_probes -= 1;
+                            self.cnt.inc("c12.gate_exempt_loss_probe");
+                        } else {
+                            let mut kinds: Vec<&'static str> = pk.iter().flat_map(|p| p.frames.iter()).filter(|f| f.is_ack_eliciting()).map(|f| f.name()).collect();
+                            kinds.sort();
+                            kinds.dedup();
+                            let first_space = pk.first().map(|p| p.pkt.ty);
+                            let how = if kinds == ["STREAMS_BLOCKED"] {
+                                "piggy-backed STREAMS_BLOCKED only"
+                            } else if pk.len() > 1 && first_space != Some(PType::Short) {
+                                "coalesced behind an earlier-space packet"
+                            } else {
+                                "plain"
+                            };
+                            bad.push(format!(
+                                "conn {ei}/{ch}: [{how}] ack-eliciting datagram {i} of {} bytes sent with {} bytes in flight, window {} (packets: {:?})",
+                                s.len(),
+                                f,
+                                window,
+                                pk.iter().map(|p| (p.pkt.ty, p.frames.iter().map(|f| f.name()).collect::<Vec<_>>())).collect::<Vec<_>>()
+                            ));
+                        }
+                    } else {
+                        self.cnt.inc("c12.gate_passed_with_margin");
+                        if f + counted + 1500 >= window {
+                            self.cnt.inc("c12.gate_near_window");
+                        }
+                    }
+                }
+                f += counted;
+            }
+            if !initial_discarded {
+                if f == post.in_flight_bytes {
+                    self.cnt.inc("c12.send_accounting_equal");
+                } else {
+                    self.cnt.inc("c12.send_accounting_differs");
+                }
+            }
+            for m in bad {
+                self.violate("C12", m);
+            }
+        }
+
+        // ---------------- C05 wire ledger ----------------
+        if self.enable_c05 && self.lane == Lane::Null {
+            if let Some(cm) = self.conns.get_mut(&(ei, ch)) {
+                if cm.led_on {
+                    let mut msgs = vec![];
+                    for d in decoded.iter().flatten() {
+                        for p in d {
+                            for fr in &p.frames {
+                                let (id, end) = match fr {
+                                    Frame::Stream { id, off, data, .. } => (*id, off + data.len() as u64),
+                                    Frame::ResetStream { id, final_size, .. } => (*id, *final_size),
+                                    _ => continue,
+                                };
+                                self.cnt.inc("c05.stream_frames_checked");
+                                let limit = *cm.led_stream.get(&id).unwrap_or(&cm.led_stream_default);
+                                if end > limit {
+                                    msgs.push(format!("conn {ei}/{ch}: stream {id} data up to offset {end} sent, peer's stream limit is {limit}"));
+                                }
+                                let hi = cm.sent_hi.entry(id).or_insert(0);
+                                if end > *hi {
+                                    cm.sent_total += end - *hi;
+                                    *hi = end;
+                                }
+                                if cm.sent_total > cm.led_max_data {
+                                    msgs.push(format!("conn {ei}/{ch}: sum of highest stream offsets {} exceeds peer's connection limit {}", cm.sent_total, cm.led_max_data));
+                                }
+                                // stream-count limit applies to streams this side initiated
+                                let initiator_client = id & 1 == 0;
+                                if initiator_client == cm.side_is_client {
+                                    let bidi = id & 2 == 0;
+                                    let idx = id >> 2;
+                                    let lim = cm.led_max_streams[if bidi { 0 } else { 1 }];
+                                    if idx >= lim {
+                                        msgs.push(format!("conn {ei}/{ch}: stream {id} (index {idx}) used, peer allows only {lim} {} streams", if bidi { "bidi" } else { "uni" }));
+                                    }
+                                }
+                            }
+                        }
+                    }
+                    for m in msgs {
+                        if self.viol.len() < 64 {
+                            self.viol.push(Violation { prop: "C05", msg: m });
+                        }
+                    }
                 }
             }
         }
